@@ -340,6 +340,18 @@ def trunc(s, n=400):
   return s if len(s) <= n else s[:n] + '…(%d chars)' % len(s)
 
 
+def manifest_category(prop_id):
+  """the category claimed for this property in MANIFEST.json (evidence `level` must match it)."""
+  try:
+    m = json.load(open(os.path.join(VERIF, 'MANIFEST.json')))
+    for c in m.get('checks', []):
+      if c.get('property_id') == prop_id:
+        return c.get('level_claimed', {}).get('category', 'proof')
+  except Exception:  # noqa
+    pass
+  return 'proof'
+
+
 def load_known_findings():
   p = os.path.join(VERIF, 'known_findings.json')
   if not os.path.exists(p):
@@ -376,7 +388,7 @@ def finish(rep, level_text_base, trusted_base, assumptions, checker_cmd):
       'property_id': rep.prop_id,
       'tier': rep.tier,
       'seed': rep.seed,
-      'level': 'proof',
+      'level': manifest_category(rep.prop_id),
       'coverage': {
           'obligations': rep.obligations,
           'discharged': rep.discharged,
@@ -403,6 +415,11 @@ def finish(rep, level_text_base, trusted_base, assumptions, checker_cmd):
       'violations': len(viol_lines),
   }
   cov = ev['coverage']
+  if ev['level'] == 'other':
+    cov['explanation'] = ('mixed level: the deterministic clauses of this property are Lean theorems (obligations / discharged / '
+                          'checker_cmd / trusted_base above are the proof part, audited on this run), the clause that rests on a '
+                          'heuristic, an LLL oracle or a probability is explored on the real implementation only (evaluations, '
+                          'branch_tags and the planted-family statistics above); see MANIFEST level_claimed.text for which clause is which')
   if 'exhaustive' in cov and not isinstance(cov['exhaustive'], bool):
     cov['exhaustive_detail'] = cov.pop('exhaustive')
   for k in ('evaluations', 'distinct_nontrivial', 'obligations', 'discharged'):
